@@ -68,6 +68,10 @@ def cases(draw, tier):
     if size != "small":
         # the 5 000-line flush belongs to the ShExC serializer; SHACL graphs of that size make the isomorphism oracle too slow
         ops = [[o[0], "ShEx", o[2], o[3]] if o[0] == "shex" else o for o in ops if o[0] != "profile"] or [["shex", "ShEx", "file", 0]]
+    if size == "small" and cfg.get("decimals", -1) > 0 and draw(st.booleans()):
+        # the same call before and after an unrelated Shaper with ANOTHER precision was built and used
+        first = next((o for o in ops if o[0] == "shex"), ["shex", "ShEx", "string", 0])
+        ops = [list(first), ["other_shaper", (cfg["decimals"] % 4) + 1, draw(st.sampled_from(["ratio", "mixed"]))], list(first)]
     if via_rdflib and draw(st.booleans()):
         # the same call made twice, with examples: annotations are added to the cached shapes by the serializer
         cfg["examples_mode"] = draw(st.sampled_from(["cons", "all"]))
@@ -247,6 +251,15 @@ def check(case):
                 except Exception:
                     pass
                 os.remove(hist_path)        # make_kwargs writes the real document
+            # the model answers first: what a FRESH Shaper with freshly copied arguments returns for each call.  They are computed
+            # before the history starts, so that no model Shaper is built or used between two calls of the history (that could put
+            # back state the history had disturbed)
+            expected = {}
+            for i, op in enumerate(ops):
+                if op[0] in ("new_shaper", "other_shaper"):
+                    continue
+                fresh = sut.Shaper(**make_kwargs(case, copy.deepcopy(case["ns"]), None, fresh_path()))
+                expected[i], _ = do_call(fresh, [op[0]] + ([op[1], "string", op[3]] if op[0] == "shex" else ["string"]), d, "m%d" % i)
             shaper = sut.Shaper(**make_kwargs(case, ns_shared, shared, hist_path))
             for i, op in enumerate(ops):
                 if op[0] == "new_shaper":
@@ -261,8 +274,7 @@ def check(case):
                     sut.Shaper(**kw_o).shex_graph(string_output=True, acceptance_threshold=0)
                     continue
                 fmt = op[1] if op[0] == "shex" else "profile"
-                fresh = sut.Shaper(**make_kwargs(case, copy.deepcopy(case["ns"]), None, fresh_path()))
-                exp, efile = do_call(fresh, [op[0]] + ([op[1], "string", op[3]] if op[0] == "shex" else ["string"]), d, "m%d" % i)
+                exp = expected[i]
                 try:
                     got, gfile = do_call(shaper, op, d, "h" if case.get("same_path") else "h%d" % i, case.get("stale"))
                 except sut.Timeout:
